@@ -8,10 +8,11 @@ package main
 // enumeration over all vehicles, allowed orders and positions (bestMoveOracle, as in the hist stream).
 
 import (
-	"strings"
 	"context"
 	"fmt"
 	"math/rand"
+	"os"
+	"strings"
 	"time"
 
 	"github.com/nextmv-io/nextroute"
@@ -33,8 +34,8 @@ type apibmCase struct {
 	Pair     bool           `json:"pair,omitempty"` // stops 0 and 1 form one unit, 0 before 1
 	Latest   []int64        `json:"latest"`         // per stop, seconds after the base time; 0 = none
 	Hard     bool           `json:"hard"`
-	Travel   [][3]int       `json:"travel,omitempty"` // (from stop, to stop, seconds) overrides of the default
-	Triple   bool           `json:"triple,omitempty"` // stops 0, 1, 2 form one unit (0 before 1, 2 free) instead of the pair
+	Travel   [][3]int       `json:"travel,omitempty"`   // (from stop, to stop, seconds) overrides of the default
+	Triple   bool           `json:"triple,omitempty"`   // stops 0, 1, 2 form one unit (0 before 1, 2 free) instead of the pair
 	Disallow [][2]int       `json:"disallow,omitempty"` // successor constraint: (stop, stop that must not come directly behind it); -1 = the first vehicle's end
 	Ops      []int          `json:"ops"`
 }
@@ -212,6 +213,7 @@ func runAPIBM(o *Out, rng *rand.Rand, thorough bool) {
 		crng := o.CaseRng(ci)
 		c := genAPIBMCase(crng)
 		if replayFile != "" {
+			c = apibmCase{} // a replay is the whole case: nothing of the generated one may shine through fields the file omits
 			loadReplayInto(replayFile, &c)
 		}
 		if !o.BeginCase(ci, c) {
@@ -224,6 +226,9 @@ func runAPIBM(o *Out, rng *rand.Rand, thorough bool) {
 
 func runAPIBMCase(o *Out, c *apibmCase) {
 	defer func() {
+		if os.Getenv("VERIF_NORECOVER") != "" {
+			return
+		}
 		if r := recover(); r != nil {
 			o.Violate(Violation{Property: "C16", Clause: "panic-in-operation", Sig: "C16|panic-in-operation|api-best-move", Detail: fmt.Sprint(r), Replay: c})
 		}
